@@ -628,6 +628,35 @@ func searchMain(a map[string]string) {
 			s.encodeSpec([]interface{}{b[:n-1], []byte{0x01}})
 		}
 	}
+	// integer positions must refuse strings longer than their width: every boundary length, top level
+	// and nested, through the accept => re-encodes-the-same oracle
+	{
+		ir := hx.NewRng(hx.SeedFromEnv() ^ 0x1e9)
+		for _, L := range intLens {
+			if L > 2000 && !thorough {
+				continue
+			}
+			str := longIntString(ir, L)
+			for _, ts := range []string{"u8", "u16", "u32", "u64", "bool", "big", "P,u64"} {
+				t, _ := tyOf(ts)
+				s.canonical(t, str)
+			}
+			for _, tree := range [][]interface{}{
+				{rlp.RawValue(str)},
+				{[]byte{0x01}, rlp.RawValue(str)},
+				{rlp.RawValue(str), []byte{0x01}, []byte{0x02}},
+			} {
+				enc, err := rlp.EncodeToBytes(tree)
+				if err != nil {
+					continue
+				}
+				for _, ts := range []string{"S,u64", "S,u8", "S,bool", "S,big", "R2,u64,tail,S,u64", "R1,tail,S,u64", "A2,u64", "R2,u64,u64"} {
+					t, _ := tyOf(ts)
+					s.canonical(t, enc)
+				}
+			}
+		}
+	}
 	// shared library state: the interleaving of the round-2 seeded class first, then random sessions
 	s.sessionOracle("api er:a:R3,u64,bytes,S,str:L3,N7,B" + strings.Repeat("aa", 70) + ",L2,B616c706861,B62657461;eb:R3,u64,bytes,S,str:L3,N9,B" + strings.Repeat("55", 90) + ",L1,B78;dr:a;chk")
 	s.sessionOracle("api er:a:S,u64:L3,N1,N2,N3;dr:a;en:b:L3,B61,L3,N1,N2,N3,N9;en:r:L3,B61,L3,N1,N2,N3,N9;chk")
